@@ -63,9 +63,50 @@ def ensure_lock():
         shutil.copy(os.path.join(REPO, "Cargo.lock"), lock)
 
 
+def _repo_source_hash(dirs):
+    import hashlib
+    h = hashlib.sha256()
+    for d in dirs:
+        for base, subdirs, files in os.walk(os.path.join(REPO, d)):
+            subdirs.sort()
+            if "target" in subdirs:
+                subdirs.remove("target")
+            for f in sorted(files):
+                if f.endswith((".rs", ".toml")):
+                    p = os.path.join(base, f)
+                    h.update(p.encode())
+                    with open(p, "rb") as fh:
+                        h.update(fh.read())
+    return h.hexdigest()
+
+
+def _stale(stamp_name, now):
+    stamp = os.path.join(TARGET, ".src_hash_" + stamp_name)
+    old = open(stamp).read().strip() if os.path.exists(stamp) else ""
+    return stamp, old != now
+
+
+def _drop_fingerprints(fingerprint_dir, crates):
+    """cargo decides by modification times; a check must never run a stale binary, so the content hash of the /repo
+    sources is kept next to the build output and, when it differs, the fingerprints of the /repo crates and of the
+    harness package are removed (cargo then recompiles them whatever the time stamps say)."""
+    import glob
+    for c in crates:
+        for d in glob.glob(os.path.join(fingerprint_dir, c + "-*")):
+            shutil.rmtree(d, ignore_errors=True)
+
+
 def build(packages, timeout=1800):
     """Incremental build of harness packages against /repo's working tree. Returns dir with binaries."""
     ensure_lock()
+    os.makedirs(TARGET, exist_ok=True)
+    now = _repo_source_hash(["agdb", "agdb_derive", "agdb_server/src"])
+    stamps = []
+    for p in packages:
+        stamp, stale = _stale(p, now)
+        stamps.append(stamp)
+        if stale:
+            _drop_fingerprints(os.path.join(TARGET, "release", ".fingerprint"), ["agdb", "agdb_derive", p])
     cmd = ["cargo", "build", "--release", "--offline"]
     for p in packages:
         cmd += ["-p", p]
@@ -75,6 +116,9 @@ def build(packages, timeout=1800):
     if r.returncode != 0:
         log(r.stdout[-6000:])
         raise ToolError("cargo build failed for %s" % packages)
+    for stamp in stamps:
+        with open(stamp, "w") as f:
+            f.write(now)
     log("[build] %s ok in %.1fs" % (",".join(packages), time.time() - t0))
     return os.path.join(TARGET, "release")
 
@@ -82,6 +126,11 @@ def build(packages, timeout=1800):
 def build_server(timeout=3600):
     """Build the real agdb_server binary from /repo with the hook guard on."""
     out = os.path.join(TARGET, "server")
+    os.makedirs(TARGET, exist_ok=True)
+    now = _repo_source_hash(["agdb", "agdb_derive", "agdb_api", "agdb_server"])
+    stamp, stale = _stale("agdb_server", now)
+    if stale:
+        _drop_fingerprints(os.path.join(out, "debug", ".fingerprint"), ["agdb", "agdb_derive", "agdb_api", "agdb_server"])
     env = cargo_env()
     env["RUSTFLAGS"] = "--cfg agdb_verif --check-cfg cfg(agdb_verif)"
     cmd = ["cargo", "build", "--offline", "--manifest-path", os.path.join(REPO, "Cargo.toml"),
@@ -92,6 +141,8 @@ def build_server(timeout=3600):
     if r.returncode != 0:
         log(r.stdout[-6000:])
         raise ToolError("cargo build of agdb_server failed")
+    with open(stamp, "w") as f:
+        f.write(now)
     log("[build] agdb_server ok in %.1fs" % (time.time() - t0))
     return os.path.join(out, "debug", "agdb_server")
 
